@@ -911,6 +911,8 @@ func ruleEmitCoversState(c *Ctx) {
 		}
 		loc := fg.LocOf(call)
 		var facts []string
+		canonBody = l.Body
+		defer func() { canonBody = nil }()
 		// conditions that are about the thing being emitted mention it: the parameters of the enclosing
 		// callbacks (the object, the field) or a local of hook/object/field type; a condition on other
 		// locals only (the batch counter against the batch size) is not a filter on the emitted state
